@@ -1700,6 +1700,10 @@ func runColPayload(c colCase) colEvent {
 				break
 			}
 			r := col.At(i)
+			if r == nil || reflectIsNil(r) {
+				ev.TypesSame, ev.IDsSame, ev.ValsSame = false, false, false // a member that is not there
+				continue
+			}
 			if r.GetType().Name != t {
 				ev.TypesSame = false
 				continue // the fields below are those of the listed type
